@@ -117,7 +117,12 @@ def rules_raise(run):
     for st, v in [(st, v) for n in q.walk(F) if isinstance(n, ast.Assign) for st, v in [(n, n.value)]]:
         if any(x is table_sub for x in ast.walk(v)) and isinstance(st.targets[0], ast.Name):
             kv = st.targets[0].id
-    run.anchor(kv, r, 'variable holding the selected exception class')
+    def is_selected_class(funcexpr):
+        """The raised callable is the table entry selected by cond_type (directly, or through a local)."""
+        for v, st_ in q.alternatives(F, funcexpr):
+            if v is table_sub or any(x is table_sub for x in ast.walk(v)) and isinstance(strip_cast(v), ast.Subscript):
+                return True
+        return kv is not None and dotted(strip_cast(funcexpr)) == kv
     # dynamic dispatch on the same kind
     disp = [c for c in q.calls(F) if isinstance(c.func, ast.Call) and isinstance(c.func.func, ast.Name) and c.func.func.id == 'getattr']
     run.check(len(disp) == 1, r, fi.short, 'single evaluator dispatch', 'found %d' % len(disp), F)
@@ -135,7 +140,7 @@ def rules_raise(run):
     run.check(len(loops) == 1, r, fi.short, 'loop over the unsatisfied conditions', 'missing', F)
     for lp in loops:
         first = lp.body[0]
-        good = isinstance(first, ast.Raise) and isinstance(first.exc, ast.Call) and dotted(first.exc.func) == kv
+        good = isinstance(first, ast.Raise) and isinstance(first.exc, ast.Call) and is_selected_class(first.exc.func)
         run.check(good, r, fi.short, 'first unsatisfied condition raises unconditionally', 'the loop body must start with `raise <class>(..)`', lp)
         if good:
             kw = q.kwargs_of(first.exc)
